@@ -315,6 +315,50 @@ example : TorusNear (valI 50 (lshCoef .add 50 57 [2 ^ 61, -7, 12345] [2 ^ 62, -(
     (by intro x hx; simp at hx; rcases hx with rfl | rfl | rfl <;> norm_num)
     (by intro x hx; simp at hx; rcases hx with rfl | rfl <;> norm_num)
 
+/-- **`vec_znx_rsh_add_into`**, every `k`: the kernel re-normalises the top `⌈k/b⌉` limbs of `res`
+together with the carry, adds the digits to the middle limbs and leaves the bottom limbs; `res' − res`
+represents `a·2^-k` within one unit of the last limb (limbs of `res` within head-room and `≤ 2^62`). -/
+theorem rsh_add_value {b : Nat} {H : Int} (hr : HeadRoom 64 b 0 H) (hb62 : b ≤ 62) (k : Nat) (a res : List Int)
+    (ha : ∀ x ∈ a, |x| ≤ H) (hres : ∀ r ∈ res, |r| ≤ H) (hres62 : ∀ r ∈ res, |r| ≤ 2 ^ 62) :
+    (rshCoef .add b k a res).length = res.length ∧
+    TorusNear (valI b (rshCoef .add b k a res) - valI b res) (b * res.length) (valI b a) (b * a.length + k) := by
+  obtain ⟨hl, t, ht⟩ := rshCoef_fused_cong hr hb62 false k a res ha hres hres62
+  simp only [Bool.false_eq_true, if_false, one_mul] at hl ht
+  exact ⟨hl, torusNear_of_cong ⟨t, by linarith⟩ (rsh_value hr k a res ha).2.2.1⟩
+
+/-- **`vec_znx_rsh_sub`**, every `k`: `res' − res` represents `−a·2^-k` within one unit of the last limb -/
+theorem rsh_sub_value {b : Nat} {H : Int} (hr : HeadRoom 64 b 0 H) (hb62 : b ≤ 62) (k : Nat) (a res : List Int)
+    (ha : ∀ x ∈ a, |x| ≤ H) (hres : ∀ r ∈ res, |r| ≤ H) (hres62 : ∀ r ∈ res, |r| ≤ 2 ^ 62) :
+    (rshCoef .sub b k a res).length = res.length ∧
+    TorusNear (valI b (rshCoef .sub b k a res) - valI b res) (b * res.length) (-(valI b a)) (b * a.length + k) := by
+  obtain ⟨hl, t, ht⟩ := rshCoef_fused_cong hr hb62 true k a res ha hres hres62
+  simp only [if_true] at hl ht
+  refine ⟨hl, torusNear_of_cong ⟨t, ?_⟩ (rsh_value hr k a res ha).2.2.1.neg⟩
+  linarith
+
+example : TorusNear (valI 50 (rshCoef .add 50 57 [2 ^ 61, -7, 12345] [2 ^ 61, -(2 ^ 61)]) - valI 50 [2 ^ 61, -(2 ^ 61)])
+    (50 * 2) (valI 50 [2 ^ 61, -7, 12345]) (50 * 3 + 57) :=
+  (rsh_add_value (b := 50) (H := 2 ^ 62) ⟨by norm_num, by norm_num, by norm_num, by norm_num, by norm_num⟩ (by norm_num) 57 _ _
+    (by intro x hx; simp at hx; rcases hx with rfl | rfl | rfl <;> norm_num)
+    (by intro x hx; simp at hx; rcases hx with rfl | rfl <;> norm_num)
+    (by intro x hx; simp at hx; rcases hx with rfl | rfl <;> norm_num)).2
+
+/-- **`vec_znx_lsh_assign`** is `vec_znx_lsh` with `res = a`: same length, balanced digits and exactly
+`a·2^k` on the torus (the output has as many limbs as the input). -/
+theorem lsh_assign_value {b : Nat} {H : Int} (k : Nat) (hr : HeadRoom 64 b 0 H) (a : List Int) (ha : ∀ x ∈ a, |x| ≤ H) :
+    lshAssignCoef b k a = lshCoef .overwrite b k a a ∧
+    (lshAssignCoef b k a).length = a.length ∧ (∀ d ∈ lshAssignCoef b k a, Balanced b d) ∧
+    TorusEq (valI b (lshAssignCoef b k a)) (b * a.length) (valI b a * 2 ^ k) (b * a.length) := by
+  have hb : 1 ≤ b := by have := hr.hlsh; omega
+  have he := lshAssignCoef_eq k (hr.with_lsh (Nat.mod_lt k (by omega))) a ha
+  have hv := lsh_value hr k a a ha
+  rw [he]
+  exact ⟨rfl, hv.1, hv.2.1, hv.2.2.2 (by omega)⟩
+
+example : TorusEq (valI 17 (lshAssignCoef 17 40 [2 ^ 62, -(2 ^ 40), 7])) (17 * 3) (valI 17 [2 ^ 62, -(2 ^ 40), 7] * 2 ^ 40) (17 * 3) :=
+  (lsh_assign_value (b := 17) (H := 2 ^ 62) 40 ⟨by norm_num, by norm_num, by norm_num, by norm_num, by norm_num⟩ _
+    (by intro x hx; simp at hx; rcases hx with rfl | rfl | rfl <;> norm_num)).2.2.2
+
 /-! ### vec_znx_normalize_assign -/
 
 /-- **`vec_znx_normalize_assign`**: same length, balanced digits, and exactly the same torus element -/
